@@ -30,7 +30,11 @@ ASSUMPTIONS = ["the auxiliary basis, exponent ladder (alpha_min, alpha_max), rad
                "rho < 1e-4 are excluded (the 1e-16 regulariser of s^2 equals rho^(8/3) at rho = 1e-6) from the per-point comparison; cut-offs of the generator and integrator (rhocut, expcut) are transported too; tolerances 3e-7 relative; a wrong power shows as |l^du - 1| >= 0.1"]
 TOL_PW = 1e-11
 TOL_GEN = 3e-7   # per-point features on the exactly scaled system (floor 9e-8: absolute cut-offs rhocut/expcut)
-TOL_FLAPL = 1e-9  # fractional-Laplacian features from the orbitals on the exactly scaled system (measured below)
+# fractional-Laplacian features from the orbitals on the exactly scaled system, relative to the largest value of the feature:
+# eval_kao itself is covariant to 1e-15, but FLNumInt contracts with pyscf's AO-pair screening (absolute thresholds on
+# Gaussian overlaps, which do not scale), so a pair can be kept on one side and dropped on the other: 4.7e-8 observed in the
+# thorough tier (first bound 1e-9 came from quick runs without such a flip and raised a false alarm there)
+TOL_FLAPL = 3e-7
 TOL_E = 3e-7     # energies / XC matrices (floor 4e-7 for a weakly bound UKS case)
 
 FAMS = ["sl-npa", "sl-nst", "sl-ns", "sl-np", "vj-mgga", "vj-gga", "vi-mgga", "vi-gga", "vij-mgga", "vk-mgga", "vk-gga",
